@@ -314,7 +314,7 @@ mod verif_cex {
         cex_none(
             "T3",
             cases,
-            "comment texts = every sequence of <=4 tokens over 14 core tokens (<block>, <block a=\"1\">, </block>, </ block >, <blockquote>, <block/>, < block>, stray <, blank, x, >, a start tag with an unclosed quote, a lone quote, newline), every sequence of <=3 tokens over 22 tokens (bare / spaced / multi-line / duplicate / non-ASCII attributes, <Block>, </block without >), 150 texts with a tag as the last bytes, 20000 random soups of 5..=12 tokens; driven like block_parser does (fresh parser resumed at the saved cursor)",
+            "comment texts = every sequence of <=4 tokens over 14 core tokens (<block>, <block a=\"1\">, </block>, </ block >, <blockquote>, <block/>, < block>, stray <, blank, x, >, a start tag with an unclosed quote, a lone quote, newline), every sequence of <=3 tokens over 25 tokens (bare / spaced / multi-line / duplicate / non-ASCII attributes, <Block>, </block without >, the end-tag look-alikes </blockquote> </blocks> </block x>), 150 texts with a tag as the last bytes, 20000 random soups of 5..=12 tokens; driven like block_parser does (fresh parser resumed at the saved cursor)",
         );
     }
 }
